@@ -404,7 +404,8 @@ def rand_extra(rng, size=None):
     n = size if size is not None else rng.choice([0, 0, 1, 1, 2, 5, 20])
     d = {}
     while len(d) < n:
-        d[rng.choice([0, 1, (1 << 32) - 1, rng.getrandbits(32)])] = rng.choice([1, 255, 256, rng.getrandbits(rng.randrange(1, 248)) + 1])
+        # amounts: VarUInteger 32 - zero is a legal amount (len 0) and such an entry is still an entry of the dictionary
+        d[rng.choice([0, 1, (1 << 32) - 1, rng.getrandbits(32)])] = rng.choice([0, 0, 1, 255, 256, rng.getrandbits(rng.randrange(1, 248)) + 1])
     return d
 
 
